@@ -6,15 +6,15 @@ ID = 'C15'
 RULE = ('field: straight-line programs over the public operators inside the operand discipline the crate itself uses (ref10 magnitude units: add/sub add the units of their operands and every consumer '
         '- mul, square, invert, pow, encoding, sign/zero tests, == - receives at most 3 units), every register compared with Python integers mod p (canonical bytes, sign, zero test, ==), inputs from boundary and limb-boundary '
         'values, plus algebraic-identity programs that reach zero by different routes, result-directed programs x*(x^-1*T) whose product must encode as a target T with extreme limb patterns, square_and_double(sqrt(T)) for such T used as subtrahend / negated / doubled, and (64-bit backend) sums of up to 40 summands and 2^14-fold doublings before every consumer; scalars: wide reduction on 0, L-1, L, L+1, kL(+-1), every 2^k, sparse and dense patterns, '
-        'canonical decoder on values around L and byte-reversed L; group: fixed-base multiplication for every single-nibble scalar and boundary scalars, double-scalar '
-        'multiplication incl. every small odd b and 2^k-j, doubling/addition/conversion chains, decode(encode(P)), every precomputed table entry and every select() argument '
+        'canonical decoder on values around L and byte-reversed L; a*b+c mod L (hook) with operands solved so that the result has a chosen 21-bit / 56-bit limb (or run of limbs) all zeros / all ones; group: fixed-base multiplication for every single-nibble scalar and boundary scalars, double-scalar '
+        'multiplication incl. every small odd b and 2^k-j, doubling/addition/conversion chains, register programs over full points in which every result (doublings of every flavour, owned-operand and GePrecomp::ZERO operators) is used again as an operand of + and -, decode(encode(P)), every precomputed table entry and every select() argument '
         '(through the read-only hook); distinct = (op family, shape/class)')
 ASSUMPTIONS = ['bulk phase: the force-32bits backend serves as a second implementation for locating rare disagreements; a disagreement is reported only when the Python model shows the default build wrong, and sampled outputs are always checked against the Python model', 'Python integers modulo p and L; Edwards arithmetic of the C13/C14 oracle']
 FLOORS = {'evaluations': 5000, 'distinct': 3000, 'coverage': {'table:GE_BASE': 256, 'table:BI': 8, 'select': 32 * 17}}
 THOROUGH_ROUNDS = 40   # thorough tier: generator passes with derived seeds (runner.gen_rounds)
 # bulk phase (cxv/bulk.py): wide reduction, field expressions (mul, square, add, sub, double-square, encoding, sign/zero/==), inversion and the (p-5)/8 power, a*A + b*B
-BULK = {'quick': [('sc_reduce', 1 << 20, 1 << 14), ('fe_mix', 1 << 20, 1 << 14), ('fe_inv', 1 << 15, 1024), ('ge_dsm', 1 << 13, 512)],
-        'thorough': [('sc_reduce', 1 << 27, 1 << 17), ('fe_mix', 1 << 27, 1 << 17), ('fe_inv', 1 << 23, 1 << 13), ('ge_dsm', 1 << 21, 4096)]}
+BULK = {'quick': [('sc_reduce', 1 << 20, 1 << 14), ('sc_muladd', 1 << 21, 1 << 14), ('fe_mix', 1 << 20, 1 << 14), ('fe_inv', 1 << 15, 1024), ('ge_dsm', 1 << 13, 512)],
+        'thorough': [('sc_reduce', 1 << 27, 1 << 17), ('sc_muladd', 1 << 27, 1 << 17), ('fe_mix', 1 << 27, 1 << 17), ('fe_inv', 1 << 23, 1 << 13), ('ge_dsm', 1 << 21, 4096)]}
 P, L = o.P, o.L
 M255 = (1 << 255) - 1
 
@@ -257,6 +257,50 @@ def gen(tier, seed):
         wide.append(v & ((1 << 512) - 1))
     for v in wide:
         yield 'sc_reduce %s #sc-reduce' % (v % (1 << 512)).to_bytes(64, 'little').hex()
+    # ---- a*b + c mod L (the routine signing uses, through the hook): result-directed operands.  The result S is chosen first, with
+    # one 21-bit limb (32-bit backend) or one 56-bit limb (64-bit backend) - or a run of limbs - all zeros / all ones and the limbs
+    # below it small / large / random, so that the final carry chains ripple (or borrow) across that position; a and b are arbitrary
+    # 256-bit values of several classes and c = S - a*b mod L is the canonical addend
+    def ab_class():
+        k = rng.below(6)
+        if k == 0:
+            return rng.below(L)
+        if k == 1:
+            v = bytearray(rng.bytes(32)); v[0] &= 248; v[31] &= 127; v[31] |= 64
+            return int.from_bytes(v, 'little')
+        if k == 2:
+            return int.from_bytes(rng.bytes(32), 'little')
+        if k == 3:
+            return L - 1 - rng.below(1 << rng.choice([1, 20, 64, 128]))
+        if k == 4:
+            return (1 << 256) - 1 - rng.below(1 << rng.choice([1, 21, 56, 130]))
+        return rng.below(1 << rng.choice([1, 21, 56, 128, 252]))
+    def directed_S(w, nl):
+        i = rng.below(nl)
+        run = rng.choice([1, 1, 1, 2, 3])
+        ones = rng.below(2)
+        v = rng.below(L)
+        for j in range(i, min(nl, i + run)):
+            v &= ~(((1 << w) - 1) << (w * j))
+            if ones:
+                v |= ((1 << w) - 1) << (w * j)
+        low = rng.below(4)
+        if i and low < 3:
+            m = (1 << (w * i)) - 1
+            v &= ~m
+            v |= {0: rng.below(1 << rng.choice([1, 8, w])), 1: m - rng.below(1 << rng.choice([1, 8, w])), 2: rng.below(m + 1) >> rng.below(4)}[low] & m
+        return v % L, '%d/%d' % (w, i)
+    for w, nl, cnt in ((21, 12, 2400 if not thorough else 6000), (56, 5, 600 if not thorough else 2000)):
+        for _ in range(cnt):
+            S, tag = directed_S(w, nl)
+            a, b = ab_class(), ab_class()
+            c = (S - a * b) % L
+            yield 'sc_muladd %s %s %s #sc-muladd-directed/%s' % (le32(a), le32(b), le32(c), tag)
+    for a in SC_SPECIAL[:14]:
+        for b in SC_SPECIAL[:14]:
+            yield 'sc_muladd %s %s %s #sc-muladd-special' % (le32(a), le32(b), le32(rng.choice([0, 1, L - 1, rng.below(L)])))
+    for _ in range(2000 if thorough else 400):
+        yield 'sc_muladd %s %s %s #sc-muladd-random' % (le32(ab_class()), le32(ab_class()), le32(rng.below(L)))
     canon = [0, 1, L - 1, L, L + 1, L - 2, L + 2, (1 << 252), (1 << 252) - 1, (1 << 253) - 1, (1 << 255) - 1, (1 << 256) - 1, 2 * L, 2 * L - 1,
              int.from_bytes(L.to_bytes(32, 'big'), 'little'), int.from_bytes(L.to_bytes(32, 'big'), 'little') + 1, int.from_bytes(L.to_bytes(32, 'big'), 'little') - 1]
     canon += [L - k for k in range(3, 300)] + [L + (1 << k) for k in range(0, 252, 7)] + [L - (1 << k) for k in range(0, 252, 7)]
@@ -317,6 +361,30 @@ def gen(tier, seed):
     for p in dpts:
         for op in ('rt', 'dbl', 'add'):
             yield 'ge_chain %s %s %s #chain-decoded' % (p, 'B:' + le32(3), op)
+    # ---- programs over full points: every operation's result is used again as an operand (so a coordinate that the encoder never
+    # reads - T - must be right too); owned-operand operator impls; GePrecomp::ZERO; results compared register by register
+    unary = ['dbl', 'dbp', 'dpf', 'dpp', 'addz', 'subz', 'subzv']
+    binary = ['add', 'sub', 'subv']
+    for i in range(400 if thorough else 90):
+        ins = [rng.choice(base_pts), rng.choice(base_pts)] if i % 9 else [rng.choice(dpts), rng.choice(base_pts[1:])]
+        steps = ['in.' + x for x in ins]
+        if i % 5 == 0:
+            steps.append('smb.' + le32(rng.below(L)))
+        n = len(steps)
+        # every unary op is followed (sooner or later) by a binary op that reads its result on either side
+        for _ in range(rng.rng(3, 9)):
+            if rng.below(3) == 0:
+                steps.append('%s.%d' % (rng.choice(unary), rng.below(n))); n += 1
+                other = rng.below(n - 1)
+                pair = (n - 1, other) if rng.below(2) else (other, n - 1)
+                steps.append('%s.%d.%d' % (rng.choice(binary), pair[0], pair[1])); n += 1
+            else:
+                steps.append('%s.%d.%d' % (rng.choice(binary), rng.below(n), rng.below(n))); n += 1
+        yield 'ge_prog %s #prog%s' % (' '.join(steps), '-decoded' if i % 9 == 0 else '')
+    for u in unary:
+        for b in binary:
+            pnt = 'B:' + le32(rng.below(L))
+            yield 'ge_prog in.%s in.%s %s.0 %s.2.1 %s.1.2 %s.2.2 %s.2 %s.6.0 #prog-directed' % (pnt, 'B:' + le32(rng.below(L)), u, b, b, b, u, b)
     # ---- decode / encode
     for pt in so:
         for ename, enc in __import__('cxv.props.c14', fromlist=['encodings']).encodings(pt):
@@ -416,6 +484,9 @@ def expected(f, flip_decoded=False):
         return [le32(0), le32(1), le32(o.SQRTM1), le32(o.D), le32(2 * o.D % P), le32(0), o.ed_encode((0, 1)).hex()]
     if op == 'sc_reduce':
         return [(int.from_bytes(expand(f[1]), 'little') % L).to_bytes(32, 'little').hex()]
+    if op == 'sc_muladd':
+        a, b, c = (int.from_bytes(expand(x), 'little') for x in f[1:4])
+        return [((a * b + c) % L).to_bytes(32, 'little').hex()]
     if op == 'sc_canon':
         v = int.from_bytes(expand(f[1]), 'little')
         return [v.to_bytes(32, 'little').hex() if v < L else 'NONE']
@@ -434,6 +505,33 @@ def expected(f, flip_decoded=False):
         if A is None or Bq is None:
             return ['NONE']
         return [chain_expected(A, Bq, f[3])]
+    if op == 'ge_prog':
+        regs = []
+        for st in f[1:]:
+            k, _, arg = st.partition('.')
+            if k == 'in':
+                A = pt(arg)
+                if A is None:
+                    return ['NONE']
+                regs.append(o.ext(A))
+            elif k == 'smb':
+                regs.append(smul(int.from_bytes(expand(arg), 'little'), o.B))
+            else:
+                ix = [int(x) for x in arg.split('.')]
+                a = regs[ix[0]]
+                if k in ('dbl', 'dbp', 'dpf'):
+                    regs.append(o.ext_add(a, a))
+                elif k == 'dpp':
+                    d = o.ext_add(a, a); regs.append(o.ext_add(d, d))
+                elif k == 'add':
+                    regs.append(o.ext_add(a, regs[ix[1]]))
+                elif k in ('sub', 'subv'):
+                    regs.append(o.ext_add(a, o.ext(neg(o.ext_aff(regs[ix[1]])))))
+                elif k in ('addz', 'subz', 'subzv'):
+                    regs.append(a)
+                else:
+                    raise KeyError(k)
+        return [o.ed_encode(o.ext_aff(r)).hex() + ':=' for r in regs]
     if op == 'ge_decode':
         A = pt('D:' + f[1])
         return ['NONE'] if A is None else [o.ed_encode(A).hex()]
@@ -453,7 +551,7 @@ def expected(f, flip_decoded=False):
 
 
 def uses_decoded(f):
-    return any(t.startswith('D:') for t in f[1:]) or f[0] == 'ge_decode'
+    return any(t.startswith(('D:', 'in.D:')) for t in f[1:]) or f[0] == 'ge_decode'
 
 
 def check(line, toks):
@@ -519,10 +617,10 @@ def san_subset(lines):
         c = l.partition(' #')[2]
         if c in ('fe-identity', 'fe-edge', 'fe-result-directed') and rng.below(40) == 0:
             out.append(l)
-        elif c in ('sc-reduce', 'sc-canon') and rng.below(60) == 0:
+        elif (c in ('sc-reduce', 'sc-canon') or c.startswith('sc-muladd')) and rng.below(60) == 0:
             out.append(l)
         elif c in ('table', 'select') and rng.below(40) == 0:
             out.append(l)
-        elif c.startswith(('base-special', 'dsm-special', 'chain', 'decode')) and rng.below(60) == 0:
+        elif c.startswith(('base-special', 'dsm-special', 'chain', 'decode', 'prog')) and rng.below(60) == 0:
             out.append(l)
     return out[:120]
